@@ -34,7 +34,8 @@ func gz(data []byte) []byte {
 	return b.Bytes()
 }
 
-// countingCtx reports cancellation from the n-th Done() call on.
+// countingCtx reports cancellation from the n-th observation (Done() or Err() call) on: the context is cancelled
+// at some moment between the (n-1)-th and the n-th time the code looks at it.
 type countingCtx struct {
 	context.Context
 	n, calls int
@@ -53,6 +54,15 @@ func (c *countingCtx) Done() <-chan struct{} {
 	return c.ch
 }
 func (c *countingCtx) Err() error {
+	// Err is an observation of the context too: cancellation may have happened since the last one
+	c.calls++
+	if c.calls >= c.n {
+		select {
+		case <-c.ch:
+		default:
+			close(c.ch)
+		}
+	}
 	select {
 	case <-c.ch:
 		return context.Canceled
@@ -282,7 +292,7 @@ func main() {
 			}
 		}
 		// cancellation observed at the n-th check of the context
-		for n := 1; n <= 14; n++ {
+		for n := 1; n <= 20; n++ {
 			nn := n
 			run(native, fmt.Sprintf("cancel@check%02d", n), setupOpt{}, func() ([]byte, context.Context) {
 				return incoming(3, 1, 0).ToMsg().Enc(), &countingCtx{Context: context.Background(), n: nn, ch: make(chan struct{})}
@@ -313,7 +323,7 @@ func main() {
 	sort.Strings(cl)
 	pa.States = int64(len(classes))
 	pa.Distinct = int64(len(classes))
-	pa.Bound = "native and shadow; failure at every DBI position (3) and entry position (3): unknown transform, transform/flag inconsistency both ways, transform in native mode, DBI missing locally with format 1/2 (shadow), wrong wire type / truncated KV / overrunning unknown field, stored value without header under every key; cancellation at the 1st..14th context check; map size swept in 4 kB steps from 48 kB to 400 kB with 5 kB incoming values. Outcome classes: " + strings.Join(cl, " ")
+	pa.Bound = "native and shadow; failure at every DBI position (3) and entry position (3): unknown transform, transform/flag inconsistency both ways, transform in native mode, DBI missing locally with format 1/2 (shadow), wrong wire type / truncated KV / overrunning unknown field, stored value without header under every key; cancellation between any two consecutive observations of the context (1st..20th Done/Err call); map size swept in 4 kB steps from 48 kB to 400 kB with 5 kB incoming values. Outcome classes: " + strings.Join(cl, " ")
 	pa.Samples = []any{"shadow: truncated-kv@dbi2-entry1", "native: map-full@112k"}
 	r.AddPart(pa)
 
